@@ -58,6 +58,10 @@ WITNESSES = [
     W("derive-cycle-edge-outside-workspace-graph",
       {"main.thrift": 'namespace rs w\nstruct A { 1: required B b, 2: required N n }\nstruct B { 1: required map<i32, A> a (pilota.rust_type = "btree") }\n'
                       'struct N { 1: required double x }\n'}, r"E0277"),
+    # split mode with an item in the root module (protobuf file without `package`): before the repair of F-14f this wrote /mod.rs at
+    # the FILE-SYSTEM ROOT -- only run against a tree that has the repair
+    W("split-mode-root-module", {"p0.proto": 'syntax = "proto3";\nmessage Root {\n  int32 x = 1;\n  Leaf l = 2;\n}\nmessage Leaf {\n  string s = 1;\n}\n'},
+      r"include!|No such file|couldn't read", cfg=dict(mode="split", keep=0, cc=1, iu=0), kind="pb", entry="p0.proto"),
     W("enum-default-through-typedef", {"main.thrift": "namespace rs w\nenum E { A = 1 }\ntypedef E Te\nstruct S { 1: Te e = E.A }\n"}, r"PANIC invalid convert"),
     W("type-named-like-generic-parameter", {"main.thrift": "namespace rs w\nunion T { 1: i32 a, 2: string b }\n"}, r"E0599|E0277"),
     W("type-named-like-generic-parameter", {"p0.proto": 'syntax = "proto3";\npackage w;\nmessage B {\n  int32 x = 1;\n  B next = 2;\n}\n'},
@@ -71,7 +75,7 @@ WITNESSES = [
     W("service-name-underscore-digit", {"main.thrift": "namespace rs w\nservice _1 { i32 K(1: i32 a) }\n"}, r"exit 1|expected type"),
 ]
 FINDING_IDS = {  # class -> id in known_findings.json
-    "union-only-by-value-cycle": "F-14b", "path-keyword-suffix-collision": "F-14c", "related-path-target-is-prefix": "F-14d",
+    "split-mode-root-module": "F-14f", "union-only-by-value-cycle": "F-14b", "path-keyword-suffix-collision": "F-14c", "related-path-target-is-prefix": "F-14d",
     "lone-underscore-identifier": "F-14e", "container-literal-inside-container-literal": "F-14g", "uuid-not-a-direct-field": "F-14h",
     "const-of-set-type": "F-14i", "item-shadows-prelude-name": "F-14j", "btree-container-of-double": "F-14k",
     "enum-default-through-typedef": "F-14l", "type-named-like-generic-parameter": "F-14m", "const-named-like-keyword": "F-14n",
@@ -287,7 +291,7 @@ def derive_lines(dump):
 
 
 def parse_derive_answer(a):
-    """'<id>=Y ... | closed=1 wsc=1 btree=0 cons=1' -> ({id: Y|N|D}, {flag: bool}) or None (PANIC / FUEL / BADCASE)"""
+    """'<id>=Y ... | closed=1 wsc=1 cons=1' -> ({id: Y|N|D}, {flag: bool}) or None (PANIC / FUEL / BADCASE)"""
     if "|" not in a:
         return None
     left, right = a.split("|", 1)
@@ -306,8 +310,11 @@ def gen_docs(rng, tier):
         docs.append(dict(id="d%d" % i, kind="thrift", doc=doc, files=doc.texts(), entry="main.thrift"))
     for i in range(n_pb):
         r = random.Random(rng.randrange(1 << 30))
+        nf = r.choice([1, 2])
+        # a single file without `package`: every item in the root module (split mode: finding F-14f, repaired)
         files = bldgen.gen_proto_doc(r, exotic=r.choice([0.2, 0.5]), n_top=r.choice([2, 4]), n_nested=r.choice([2, 3]),
-                                     proto2=r.random() < 0.3, n_files=r.choice([1, 2]), services=r.choice([0, 2]))
+                                     proto2=r.random() < 0.3, n_files=nf, services=r.choice([0, 2]),
+                                     package=not (nf == 1 and r.random() < 0.5))
         docs.append(dict(id="q%d" % i, kind="pb", doc=None, files=files, entry="p0.proto"))
     return docs
 
@@ -551,20 +558,12 @@ def run(chk, replay=None):
             dm = None
         if dm is not None:
             dist["derive_graphs"] += 1
-            # the model's verdict on this document: does every derived impl type-check?  If not, and the document is in one of the
-            # two classes the theorem C14_derive_sound excludes, it is compiled on its own as a known-finding candidate
-            dcls = set()
+            # the model's verdict on this document: does every derived impl type-check?  C14_derive_sound says it does, for every
+            # resolved document (the two classes it used to exclude, F-14k and F-14s, are repaired): a `cons=0` answer means the model
+            # no longer describes a sound procedure -- the module stays in the batch, where the E0277 it predicts is a violation
             for ans in dm:
                 if not ans[1]["cons"]:
                     dist["derive_model_inconsistent"] += 1
-                    if ans[1]["btree"]:
-                        dcls.add("btree-container-of-double")
-                    elif not ans[1]["wsc"]:
-                        dcls.add("derive-cycle-edge-outside-workspace-graph")
-            if dcls:
-                quarantined.append((di, d, c, dcls))
-                shutil.rmtree(os.path.join(crate, "src", m), ignore_errors=True)
-                continue
         mods.append((m, m + ".rs"))
         modinfo[m] = (di, d, c)
         dist["emitted_lines"] += txt.count("\n")
@@ -680,7 +679,7 @@ def run(chk, replay=None):
         elif not b["ok"] or ok2 is False:
             failing.append((dict(kind=w["kind"], files=w["files"], entry=w["entry"], doc=None, id="w%d" % wi), w["cfg"],
                             "witness of class %s fails differently than recorded: %s" % (w["cls"], sig[:300]), b, errs2))
-        else:
+        elif chk.known_finding(w["cls"]) is not None:
             not_reproduced.append(w["cls"])
     if not_reproduced:
         chk.notes.append("known-finding witnesses that compile now (entry should become `fixed`): %s" % not_reproduced)
